@@ -102,5 +102,5 @@ def parts(tier):
     return [
         Part("enum-words", "enum", check=check_seq, cases=enum_cases, exhaustive=True, shards={"quick": 8, "thorough": 16}),
         Part("hyp-sequences", "hyp", check=check_seq, strategy=lambda t: hyp_case(120 if t == "quick" else 400),
-             examples={"quick": 1600, "thorough": 16000}, shards={"quick": 8, "thorough": 16}),
+             examples={"quick": 6400, "thorough": 32000}, shards={"quick": 8, "thorough": 16}),
     ]
